@@ -6,7 +6,7 @@ CONSTANTS
   AtomicFire = FALSE
   Go123 = FALSE
   Misuse = FALSE
-  PutOnlyStopped = FALSE
+  PutOnlyStopped = TRUE
 SPECIFICATION Spec
-INVARIANTS NoStaleTick
+INVARIANTS TypeOK NoStaleTick PoolQuiescent NoTrap Exclusive
 
